@@ -1,5 +1,5 @@
 SPECIFICATION Spec
-CONSTANTS NSubs = 1 B = 1 Progs <- ProgsS3 Interval = 0 MaxNow = 0 DepartFix = TRUE
+CONSTANTS NSubs = 2 B = 2 Progs <- ProgsSPt Interval = 6 MaxNow = 2 DepartFix = TRUE
 INVARIANTS CommonOrder ChannelsClosedAtReturn
 PROPERTIES QuietAfterClose CloseReturns
 CHECK_DEADLOCK FALSE
